@@ -175,6 +175,11 @@ def to_basic(prog):
     return lines, direct
 
 
+def after_texts(prog):
+    """The direct-mode lines to be typed after the run has stopped."""
+    return [':'.join(pstmt(s) for s in stmts).encode('latin-1') for stmts in prog.get('after') or []]
+
+
 # ---------------------------------------------------------------------------------------------------
 # layout: flat item list with labels -> numbered lines
 
@@ -934,6 +939,26 @@ FAULTS = [
 FAULTS_SOFT_DIV = [['fault', 'Q=1/0', 11, 'soft'], ['fault', 'Q%=7\\0', 11, 'soft'], ['fault', 'Q%=7 MOD 0', 11, 'soft']]
 
 
+# statements cut short: a token the statement needs is missing (Syntax error) or an operand is (Missing operand).
+# The error belongs to the line the statement stands on, wherever on the line it stands.
+SYNTAX_FAULTS = [(t, 2) for t in [
+    'ON 1', 'ON ERROR', 'DIM A9(1', 'A9(1', 'A9=(1', 'PRINT (1', 'SWAP A9', 'SWAP A9,', 'LSET A9$', 'MID$(A9$', 'OPEN "X" FOR',
+    'OPEN "X" FOR INPUT', 'POKE 1', 'OUT 1', 'WAIT 1', 'LINE INPUT', 'READ', 'KEY 1', 'PRINT USING "#"', 'ERASE', 'OPTION',
+    'OPTION BASE', 'LET', 'LET A9', 'CALL', 'TIMER', 'KEY(1)', 'ON KEY(1)', 'ON TIMER(1)', 'SOUND 100', 'VIEW PRINT 1', 'CHR$(1)',
+    '=1', 'END X', 'STOP X']] + [(t, 22) for t in [
+    'DIM A9(', 'A9=', 'A9=1+', 'PRINT 1+', 'LSET A9$=', 'OPEN "X" FOR INPUT AS', 'POKE 1,', 'ERROR', 'KEY 1,', 'PRINT USING',
+    'PRINT USING "#";', 'SOUND 100,', 'PLAY', 'MERGE', 'CHAIN', 'KILL', 'VIEW PRINT 1 TO']]
+# the same with keywords that the textual scans for NEXT / WEND / ELSE look at, or that are illegal in direct mode:
+# only in the table of the directed core
+SYNTAX_FAULTS_STRUCTURAL = [('IF 1', 2), ('FOR I9=1', 2), ('FOR I9', 2), ('FOR I9=1 TO', 22), ('DEF FNZ(', 2), ('DEF FNZ(X', 2), ('DEF', 2)]
+
+
+def _syntax_fault(r, feats):
+    t, code = r.choice(SYNTAX_FAULTS)
+    feats['syntax_fault'] = feats.get('syntax_fault', 0) + 1
+    return [['fault', t, code]]
+
+
 # DEF FN bodies: (name, body, code raised by a call | None, soft?)
 FN_BODIES = [
     ('FNA', 'SQR(-4)+X', 5, False), ('FNB', 'LOG(0)*X', 5, False), ('FNC$', 'MID$("abc",0)', 5, False),
@@ -955,6 +980,8 @@ def _c21_fault(r, feats, armed, control=True, fns=(), stub=None, main_top=False)
         if not name.endswith('$') and r.random() < 0.3:
             return [['fncall', 'Q=1+%s(%d)*2' % (name, r.randint(1, 3)), name]]
         return [['fncall', '%s=%s(%d)' % (target, name, r.randint(1, 3)), name]]
+    if r.random() < 0.12:
+        return _syntax_fault(r, feats)
     k = r.random()
     if k < 0.45:
         from ..models import c19_rctrl as M
@@ -1029,6 +1056,7 @@ def gen_c21(rng):
         feats['def_fn_lines'] = len(fns)
 
     stub = label() if r.random() < 0.5 else None
+    tail = label() if r.random() < 0.25 else None      # a routine at the very end whose LAST statement fails
 
     def P(p, extra=()):
         return ['print', tag(p), list(extra)]
@@ -1097,6 +1125,8 @@ def gen_c21(rng):
         for lab in main_labels[seq:]:
             items.append(('label', lab))
             items.append(P('m'))
+        if tail is not None:
+            items.append(['gosub', '@%d' % tail])
         items.append(P('m'))
         if nsub == 0 and r.random() < 0.12:
             feats['main_runs_into_handler'] = 1        # RESUME met without an error, possibly with the trap armed
@@ -1175,6 +1205,11 @@ def gen_c21(rng):
         items.append(('label', stub))
         items.append(P('z'))
         items.append(['resume', r.choice([None, 0, 'next', '@%d' % main_labels[0]])])
+    if tail is not None:
+        items.append(('label', tail))
+        items.append(P('y'))
+        items.extend(_syntax_fault(r, feats) if r.random() < 0.7 else _c21_fault(r, feats, False, False, fns))
+        feats['last_statement_of_program_fails'] = 1
     direct = None
     if direct_mode:
         direct = []
@@ -1372,6 +1407,12 @@ def gen_c22(rng):
             return ['arr', 'F', r.randint(0, 5)], False
         return r.choice(cands), False
 
+    def missing_line():
+        while True:
+            m = r.choice([nums[r.randrange(nlines)] + r.randint(1, 4), r.randint(0, nums[-1]), r.randint(50000, 60000)])
+            if m not in nums:
+                return m
+
     def pitem(t):
         name = t[1] if isinstance(t, list) else t
         if name.endswith('$'):
@@ -1471,6 +1512,12 @@ def gen_c22(rng):
                 stmts.append(['restore', None])
                 ptr = 0
                 feats['restore_plain'] = feats.get('restore_plain', 0) + 1
+            elif r.random() < (0.3 if resuming else 0.12):
+                # RESTORE to a line that does not exist: Undefined line number, and the pointer stays where it is
+                stmts.append(['restore', missing_line()])
+                feats['restore_to_missing_line'] = feats.get('restore_to_missing_line', 0) + 1
+                if not resuming:
+                    ended = True
             else:
                 j = r.randrange(nlines)
                 stmts.append(['restore', nums[j]])
@@ -1536,6 +1583,25 @@ def gen_c22(rng):
         lines.append([handler_line, h])
     lines.sort(key=lambda l: l[0])
     prog = {'lines': lines, 'direct': None, 'features': feats}
+    if not trap and r.random() < 0.35:
+        # direct-mode lines typed after the program has stopped (END or error): the DATA pointer is where it was left
+        after = []
+        for _ in range(r.randint(1, 3)):
+            v = r.choice(str_vars)
+            q = r.random()
+            line = []
+            if q < 0.3:
+                line.append(['restore', missing_line()])
+                feats['direct_restore_to_missing_line'] = feats.get('direct_restore_to_missing_line', 0) + 1
+            elif q < 0.45:
+                line.append(['restore', r.choice(nums)])
+            elif q < 0.55:
+                line.append(['restore', None])
+            line.append(['read', [v]])
+            line.append(['print', tag('a'), [['s', v]]])
+            after.append(line)
+        prog['after'] = after
+        feats['direct_reads_after_the_run'] = 1
     # layout: blanks / tabs between the line number and the first statement, blanks around the colons
     prog['indents'] = [r.choice([' ', ' ', '  ', '     ', '\t', ' \t ']) for _ in lines]
     prog['sep'] = r.choice([':', ':', ' :', ': ', ' : ', '  :  '])
